@@ -480,6 +480,9 @@ class EriOrbenergy:
                         cancelled_result += \
                             pref * self.eri * num / multiply(denom)
                     break
+            else:  # tried all brackets, but a part of the numerator is left
+                if cancelled_result is not None:
+                    cancelled_result += pref * self.eri * num / multiply(denom)
             # return just the term if it was not possible to successfully
             # cancel any bracket
             return self.expr if cancelled_result is None else cancelled_result
